@@ -137,6 +137,36 @@ def run(rep):
             samples.append({"n": str(ns[i]), "profile": prof, "impl": outs[i], "model_obs": m})
     if mism_total:
         broken.append(f"correspondence vh thresholds vs Model.Thresholds: {len(mism_total)} disagreeing cases")
+    # 4b. the same thresholds as METHODS of a real Schedule: they must be the functions of the TOTAL committee
+    # weight, whatever the leader-eligibility flags are (committees with non-eligible validators included)
+    srng = rng.fork()
+    sched_cases = []
+    for _ in range(300 if tier == "quick" else 5000):
+        k = srng.range(1, 12)
+        style = srng.below(4)
+        ws = [1 if style == 0 else (srng.range(1, 5) if style == 1 else (srng.range(1, 1000) if style == 2 else srng.next() >> srng.range(4, 60) | 1)) for _ in range(k)]
+        leaders = [1 if srng.chance(2, 3) else 0 for _ in range(k)]
+        if not any(leaders):
+            leaders[srng.below(k)] = 1
+        if sum(ws) < (1 << 64):
+            sched_cases.append({"weights": [str(w) for w in ws], "leaders": leaders})
+    sched_outs = common.run_impl("thresholds", sched_cases, "dev")
+    sched_nonleader = 0
+    for c, o in zip(sched_cases, sched_outs):
+        if "crash" in o or "skipped" in o:
+            raise common.MachineryError(f"harness crashed on schedule case {c}: {o}")
+        evaluations += 1
+        tot = sum(int(w) for w in c["weights"])
+        if 0 in c["leaders"]:
+            sched_nonleader += 1
+        if not o.get("sched"):
+            pred_fail.append({"n": str(tot), "schedule": c, "impl": o, "failed": ["Schedule::new refused a committee with positive weights, total below 2^64 and an eligible leader"]})
+            continue
+        want = {"total": tot, "f": (tot - 1) // 5, "q": tot - (tot - 1) // 5, "s": tot - 3 * ((tot - 1) // 5)}
+        got = {k2: (int(o[k2]) if isinstance(o[k2], str) else None) for k2 in want}
+        if got != want:
+            pred_fail.append({"n": str(tot), "schedule": c, "impl": o,
+                              "failed": [f"Schedule methods give {got} for a committee of total weight {tot}; the thresholds of the total weight are {want}"]})
     # 5. search when something broke and no failing input is known yet
     searched = 0
     if broken and not pred_fail:
@@ -162,7 +192,7 @@ def run(rep):
                 break
     # 6. verdict
     if pred_fail:
-        pred_fail.sort(key=lambda d: int(d["n"]))
+        pred_fail.sort(key=lambda d: (0 if "schedule" in d else 1, int(d["n"])))
         rep.violation("threshold arithmetic violated on the implementation: " + ", ".join(pred_fail[0]["failed"]),
                       {"failing_input": pred_fail[0], "more": pred_fail[1:5], "broken": broken,
                        "replay_cmd": "./check C07 --replay <this file>"})
@@ -197,6 +227,14 @@ def replay(path):
     if not fi:
         print("replay file names a broken obligation, no concrete input:", d.get("broken"))
         return 1
+    if "schedule" in fi:
+        common.cargo_build(["thresholds"], "dev")
+        o = common.run_impl("thresholds", [fi["schedule"]], "dev")[0]
+        tot = sum(int(w) for w in fi["schedule"]["weights"])
+        print("committee", fi["schedule"], "total weight", tot)
+        print("Schedule methods on the current code:", o)
+        print("thresholds of the total weight: f", (tot - 1) // 5, "q", tot - (tot - 1) // 5, "s", tot - 3 * ((tot - 1) // 5))
+        return 0
     for prof in ("dev", "release"):
         common.cargo_build(["thresholds"], prof)
         o = common.run_impl("thresholds", [{"n": fi["n"]}], prof)[0]
